@@ -30,6 +30,9 @@ pub fn install_panic_hook() {
             .location()
             .map(|l| format!("{}:{}", l.file(), l.line()))
             .unwrap_or_default();
+        if std::env::var_os("VERIF_PANIC_TRACE").is_some() {
+            eprintln!("PANIC: {} at {}", msg, loc);
+        }
         LAST_PANIC.with(|p| *p.borrow_mut() = format!("{} at {}", msg, loc));
     }));
 }
